@@ -127,6 +127,29 @@ def statics(repo, work):
                 objs.append((unit, name, p[1], written, addr))
     return sorted(set(objs)), sorted(imports), errors
 
+WRITE_OP = r'\s*(=(?!=)|\+\+|--|\+=|-=|\*=|/=|\|=|&=|\[[^\]]*\]\s*=(?!=))'
+SETTERS = ['libconfig_set_fatal_error_func', 'config_set_fatal_error_func']
+
+def static_writers(repo, objs):
+    """(unit, object, function) for every function whose body writes a static object that is written at all, and
+    (unit, function, callee) for every call of the functions that set the process-wide fatal-error handler"""
+    writers, setter_calls = [], []
+    for unit in C_UNITS + CXX_UNITS:
+        src = preprocess(repo, unit, unit in CXX_UNITS)
+        if src is None:
+            continue
+        names = sorted({re.sub(r'\.\d+$', '', n.split('::')[-1]) for u, n, _, w, _ in objs if u == unit and w})
+        for fname, body in functions_with_bodies(src):
+            inner = body[body.index('{'):] if '{' in body else body
+            for base in names:
+                if re.search(r'(?<![A-Za-z_0-9.>])' + re.escape(base) + WRITE_OP, re.sub(r'static[^;{}]*\b' + re.escape(base) + r'\b[^;]*;', ';', inner)) or \
+                   re.search(r'(\+\+|--)\s*' + re.escape(base) + r'\b', inner):
+                    writers.append((unit, base, fname))
+            for callee in SETTERS:
+                if re.search(r'(?<![A-Za-z_0-9.>])' + callee + r'\s*\(', inner):
+                    setter_calls.append((unit, fname, callee))
+    return sorted(set(writers)), sorted(set(setter_calls))
+
 WRAPPER_TEXTS = {
  'libconfig_malloc': "{void*ptr=malloc(size);if(!ptr)libconfig_fatal_error(__libconfig_malloc_failure_message);return(ptr);}",
  'libconfig_calloc': "{void*ptr=calloc(nmemb,size);if(!ptr)libconfig_fatal_error(__libconfig_malloc_failure_message);return(ptr);}",
@@ -156,6 +179,7 @@ def generate(repo, out_dir, write_if_changed):
     try:
         sites, e1 = alloc_sites(repo)
         objs, imports, e2 = statics(repo, work)
+        writers, setter_calls = static_writers(repo, objs)
     finally:
         shutil.rmtree(work, ignore_errors=True)
     L = ['/- GENERATED by tools/inventory.py from the preprocessed sources and `nm` of /repo/lib — do not edit. -/',
@@ -169,6 +193,10 @@ def generate(repo, out_dir, write_if_changed):
     L.append(',\n'.join('  ⟨%s, %s, %s, %s, %s⟩' % (lstr(u), lstr(n), lstr(s), 'true' if w else 'false', 'true' if a else 'false') for u, n, s, w, a in objs))
     L += [']', '', '/-- undefined symbols of the library\'s objects (functions imported from libc / libstdc++) -/', 'def imports : List String := [']
     L.append(',\n'.join('  ' + lstr(i) for i in imports))
+    L += [']', '', '/-- (unit, object, function): every function whose body writes a static object -/', 'def staticWriters : List (String × String × String) := [']
+    L.append(',\n'.join('  (%s, %s, %s)' % (lstr(u), lstr(o), lstr(f)) for u, o, f in writers))
+    L += [']', '', '/-- (unit, function, callee): every call, in the library, of a function that sets the process-wide fatal-error handler -/', 'def handlerSetterCalls : List (String × String × String) := [']
+    L.append(',\n'.join('  (%s, %s, %s)' % (lstr(u), lstr(f), lstr(c)) for u, f, c in setter_calls))
     L += [']', '', '/-- translation units that could not be preprocessed / compiled (must be empty) -/',
           'def inventoryErrors : List String := [%s]' % ', '.join(lstr(x) for x in sorted(set(e1 + e2))), '',
           '/-- the checked allocation wrappers of util.c have their catalogued text (allocate, test for NULL, call the fatal error function) -/',
